@@ -12,8 +12,17 @@ cargo test --offline -j 8 --test zz_mut_demo >> $L 2>&1; with=$?
 echo "== suite WITH change" >> $L
 cargo nextest run --workspace --no-fail-fast --tool-config-file pb:/w/lib/nextest.toml --profile pb --test-threads 8 --offline --build-jobs 8 -E 'not binary(zz_mut_demo)' > $D/suite.log 2>&1; suite=$?
 grep "Summary" $D/suite.log >> $L
-git stash push -q -- src
+if [ $suite -ne 0 ]; then
+  # timing-sensitive tests fail under machine load: re-run each failed test alone, once
+  failed=$(grep -E "^\s+FAIL " $D/suite.log | sed -E 's/.*\) +[a-z_:-]+ +//' | awk '{print $NF}' | sort -u)
+  echo "== re-running failed tests alone: $failed" >> $L
+  suite=0
+  for t in $failed; do
+    cargo nextest run --workspace --tool-config-file pb:/w/lib/nextest.toml --profile pb --test-threads 1 --offline -E "test(=$t)" >> $D/suite.log 2>&1 || { suite=100; echo "STILL FAILS alone: $t" >> $L; }
+  done
+fi
+git checkout -- src   # (no git stash: the stash is shared by all worktrees of a repository)
 echo "== demo WITHOUT change" >> $L
 cargo test --offline -j 8 --test zz_mut_demo >> $L 2>&1; without=$?
-git stash pop -q
+git apply $D/out/patch.diff
 echo "RESULT demo_with_change_exit=$with suite_with_change_exit=$suite demo_without_change_exit=$without" | tee -a $L
